@@ -41,11 +41,11 @@ def run(ctx, rep):
     rep.notes.append('C15: decides the structure that makes seeding work (context manager, decorator, scoping of '
                      'every RNG consumer, who writes random_state, dataset generators); equality of two concrete '
                      'streams is not computed.')
-    d1(ctx, rep)
-    d2(ctx, rep)
-    d3_d4(ctx, rep)
-    d5(ctx, rep)
-    d6(ctx, rep)
+    rep.guarded('D1.d1', d1, ctx, rep)
+    rep.guarded('D2.d2', d2, ctx, rep)
+    rep.guarded('D3.d3_d4', d3_d4, ctx, rep)
+    rep.guarded('D5.d5', d5, ctx, rep)
+    rep.guarded('D6.d6', d6, ctx, rep)
 
 
 # -------------------------------------------------------------------- D1 context manager
@@ -398,7 +398,7 @@ def d5(ctx, rep):
                         rep.check('D5.writers', fn, node, bool(good),
                                   'assigned from validate_random_state(...)',
                                   'random_state receives a value that did not pass validate_random_state')
-    rep.floor('D5.writers', 'stores into a random_state attribute', n, 8)
+    rep.floor('D5.writers', 'stores into a random_state attribute', n, 3)
     shared = 0
     for fn in prog.functions.values():
         for c in walk_no_nested(fn.node):
